@@ -199,6 +199,21 @@ func (f *Fakes) RoundTrip(r *http.Request) (*http.Response, error) {
 		}
 	}
 	out := f.record(svc, call, reqs, multi, files, true)
+	if fault != nil && fault.Kind == "errors-per-request" {
+		// every element of the call fails with a message of its own (names the entity asked for)
+		f.FaultsApplied++
+		for i := range out {
+			key := fmt.Sprintf("request %d", i)
+			if i < len(reqs) {
+				if id, ok := reqs[i].Variables["id"]; ok {
+					key = fmt.Sprint(id)
+				}
+			}
+			out[i] = map[string]interface{}{"data": nil, "errors": []interface{}{map[string]interface{}{"message": "failure for " + key}}}
+		}
+		b, _ := json.Marshal(out)
+		return httpResp(200, b), nil
+	}
 	if fault != nil && fault.Kind == "status500-validbody" {
 		f.FaultsApplied++
 		b, _ := json.Marshal(out)
